@@ -71,6 +71,35 @@ class ContinuousDiscretizer(BaseDiscretizer):
         self.min_freq = min_freq
         self.q = round(1 / min_freq)  # number of quantiles
 
+    def _prepare_data(self, X: DataFrame, y: Series = None) -> DataFrame:
+        """Validates format and content of X and y.
+
+        Parameters
+        ----------
+        X : DataFrame
+            Dataset used to discretize. Needs to have columns has specified in
+            ``ContinuousDiscretizer.features``.
+
+        y : Series
+            Binary target feature, not used, by default None.
+
+        Returns
+        -------
+        DataFrame
+            A formatted copy of X
+        """
+        # checking for binary target and copying X
+        x_copy = super()._prepare_data(X, y)
+
+        # checking for quantitative columns
+        not_numeric = x_copy[self.features].apply(lambda u: str in u.map(type).values, axis=0)
+        assert not any(not_numeric), (
+            " - [ContinuousDiscretizer] Non-numeric features: "
+            f"{str(list(not_numeric[not_numeric].index))} in provided quantitative_features. "
+            "Please check your inputs."
+        )
+        return x_copy
+
     @extend_docstring(BaseDiscretizer.fit)
     def fit(self, X: DataFrame, y: Series = None) -> None:  # pylint: disable=W0222
         if self.verbose:  # verbose if requested
@@ -79,6 +108,9 @@ class ContinuousDiscretizer(BaseDiscretizer):
         # checking for previous fits before modifying any attribute
         self._check_is_not_fitted()
 
+        # checking data before bucketization
+        x_copy = self._prepare_data(X, y)
+
         # storing ordering
         all_orders = []
 
@@ -86,7 +118,7 @@ class ContinuousDiscretizer(BaseDiscretizer):
         if self.n_jobs <= 1:
             all_orders = [
                 fit_feature(
-                    feature, X=X[self.quantitative_features], q=self.q, str_nan=self.str_nan
+                    feature, X=x_copy[self.quantitative_features], q=self.q, str_nan=self.str_nan
                 )
                 for feature in self.quantitative_features
             ]
@@ -96,7 +128,10 @@ class ContinuousDiscretizer(BaseDiscretizer):
                 # feature processing
                 all_orders += pool.imap_unordered(
                     partial(
-                        fit_feature, X=X[self.quantitative_features], q=self.q, str_nan=self.str_nan
+                        fit_feature,
+                        X=x_copy[self.quantitative_features],
+                        q=self.q,
+                        str_nan=self.str_nan,
                     ),
                     self.quantitative_features,
                 )
